@@ -47,11 +47,8 @@ func (e *Engine) isPureExtern(f *ssa.Function) bool {
 		return !strings.HasPrefix(n, "Put") && !strings.HasPrefix(n, "Append") && n != "Read" && n != "Write"
 	}
 	if p == "bytes" {
-		switch f.Name() {
-		case "Equal", "HasPrefix", "HasSuffix", "Index", "IndexByte", "Contains", "Compare", "NewReader", "NewBuffer", "TrimSpace", "EqualFold":
-			return true
-		}
-		return false
+		// package-level functions of bytes never write their arguments; Buffer/Reader methods are not covered here
+		return f.Signature.Recv() == nil
 	}
 	if p == "sort" {
 		switch f.Name() {
@@ -75,6 +72,16 @@ func (e *Engine) externWrites(f *ssa.Function) *WriteSet {
 		w.Heap[key] = true
 		return w
 	case p == "sync":
+		return w
+	case p == "bufio" && f.Signature.Recv() != nil && strings.Contains(f.Signature.Recv().Type().String(), "Reader"):
+		e.ghostKeys()
+		w.Heap[gBrPos] = true
+		return w
+	case p == "io" && f.Name() == "ReadFull":
+		e.ghostKeys()
+		w.Heap[gBrPos] = true
+		key, _ := e.memKey(types.Typ[types.Uint8])
+		w.Heap[key] = true
 		return w
 	case p == "sort" && (f.Name() == "Strings" || f.Name() == "Ints"):
 		if f.Name() == "Strings" {
@@ -219,6 +226,13 @@ func (e *Engine) callFunction(s *State, fr *Frame, dst *ssa.Call, f *ssa.Functio
 		e.applyAts(s, fr, anchor, "after", cc, args, v, site)
 	}
 	// built-in models first
+	if v, succ, handled, done := e.modelBufio(s, fr, dst, key, f, args, site); handled {
+		if done {
+			return succ, true
+		}
+		setResult(v)
+		return nil, false
+	}
 	if v, succ, handled, done := e.modelCall(s, fr, dst, key, f, args, site); handled {
 		if done {
 			return succ, true
